@@ -233,7 +233,7 @@ class CallbackSuite(Suite):
             return (gen_sequential() + gen_exhaustive(CORE, 7) + gen_exhaustive(CORE[:8], 6, with_dtor=True)
                     + gen_random(rng, 1500) + gen_contract(rng, 60))
         return (gen_sequential() + gen_exhaustive(HEADERS, 8) + gen_exhaustive(HEADERS, 7, with_dtor=True)
-                + gen_exhaustive3(rng, HEADERS, 8, 10) + gen_random(rng, 25000) + gen_contract(rng, 600))
+                + gen_exhaustive(CORE, 10) + gen_exhaustive3(rng, HEADERS, 8, 24) + gen_random(rng, 40000) + gen_contract(rng, 600))
 
     def distinct_key(self, case, out):
         return case["lines"][0].split(None, 2)[2] + "|" + "|".join(case["lines"][1:-2]) + "|" + "|".join(l for l in out if l.startswith("s "))
@@ -289,6 +289,8 @@ class CallbackSuite(Suite):
     def oracle(self, case, out):
         """the statement of C18 evaluated on the implementation's trace"""
         i = parse(case, out)
+        if not i["threads"] or i["threads"][0][0] != "g":
+            return []          # no registration at all (only reachable by shrinking): nothing the statement talks about
         if i["crash"]:
             return ["crash: the implementation crashed (sanitizer report / abort)"]
         if i["assert"]:
